@@ -170,7 +170,7 @@ func acceptInterval(fn *ssa.Function) (lo, hi int64, ok bool) {
 
 func checkC12(c *Check, p *Program) {
 	c.Technique = "def-use of the frame fields, bit-provenance evaluation of the frame template and flag helpers, interval of the group-command predicate, dominating-edge facts (type switches, predicate calls), send census and path counting on the SSA of the group layer"
-	c.Explanation = "Decides the mapping in both directions structurally. Outbound: the function that builds an LData from a GroupEvent starts from the template variable, whose initialiser evaluates (bit provenance with constant arguments) to Control1 = NoRepeat|NoSysBroadcast|WantAck|priority low (0x3E) and Control2 = group-address flag | hop count 6 (0xE0) and which nobody else writes; it stores Data = &AppData{Command: APCI(event.Command), Data: event.Data} (no numbered/sequence field), Source = event.Source, Destination = uint16(event.Destination), and sets the standard-frame flag by `Control1 | Control1StdFrame` exactly on the edge len(event.Data) <= 15; the tunnel wrapper sends &LDataReq{that frame}, the router wrapper &LDataInd{that frame}, each through exactly one call of the client's Send. Inbound: the forwarder's single send on the event channel is dominated by msg.(*LDataInd) ok, Control2.IsGroupAddr() true (= bit 7 of the indication's Control2), Data.(*AppData) ok, Command.IsGroupCommand() true (accepting exactly APCI 0..2) and lies on every path through those edges; the event's fields are app.Command, ind.Source, GroupAddr(ind.Destination), app.Data; every other message leads back to the receive; the event channel is closed exactly once, after the range over the client's Inbound() ends; constructors wire go forwarder(client.Inbound(), events). The byte-level part of the sentence (6-bit first byte, empty payload) is C02/C11/C15's layout of AppData."
+	c.Explanation = "Decides the mapping in both directions structurally. Outbound: the function that builds an LData from a GroupEvent starts from the template variable, whose initialiser evaluates (bit provenance with constant arguments) to Control1 = NoRepeat|NoSysBroadcast|WantAck|priority low (0x3E) and Control2 = group-address flag | hop count 6 (0xE0) and which nobody else writes; it stores Data = &AppData{Command: APCI(event.Command), Data: event.Data} (no numbered/sequence field), Source = event.Source, Destination = uint16(event.Destination), and sets the standard-frame flag by `Control1 | Control1StdFrame` exactly on the edge len(event.Data) <= 15; the tunnel wrapper sends &LDataReq{that frame}, the router wrapper &LDataInd{that frame}, each through exactly one call of the client's Send. Inbound: the forwarder's single send on the event channel is dominated by msg.(*LDataInd) ok, Control2.IsGroupAddr() true (= bit 7 of the indication's Control2), Data.(*AppData) ok, Command.IsGroupCommand() true (accepting exactly APCI 0..2) and lies on every path through those edges; the event's fields are app.Command, ind.Source, GroupAddr(ind.Destination), app.Data; every other message leads back to the receive; the event channel is closed exactly once, after the range over the client's Inbound() ends; constructors wire go forwarder(client.Inbound(), events). The byte-level part of the sentence (6-bit first byte, empty payload) is C02/C11/C15's layout of AppData. Conversely every dominating condition on the received frame in front of the send is one of those four: nothing else decides whether an indication surfaces."
 	c.Trusted = []string{"go/types, go/ssa", "kxcheck bit provenance, dominance and path counting"}
 	c.NotDecided = []string{"the end-to-end run through two live clients (a consequence of the pieces, not re-checked as a run)"}
 
